@@ -31,7 +31,7 @@ impl Prop for C16 {
         "C16"
     }
     fn rule(&self) -> String {
-        "generated workspaces whose series lines use -pN / -p N / --strip=N / --strip N (N 0..3 with matching name prefixes), -R / --reverse, comments, blank lines, and whose modify entries have differing ---/+++ names in 4 of 8 cases: old name absent (never existed, or deleted/renamed away by an earlier patch of the same run, so it is still on disk while the run resolves names) with the new name being the file, or old name being the file (possibly created earlier in the run) with the new name absent or another existing file. Each workspace is pushed (--backup always) sequentially, with 2..16 threads, and split into two invocations. Oracle: tree == model T_n in all three modes (model: target = old name if it currently exists in the model state else new name, exactly N components stripped, direction per -R), the three runs agree on tree and applied-patches, and .pc/<patch>/<path> entries name the resolved path. non-trivial = strip != 1, or -R, or differing names whose resolution depends on an earlier patch of the same run; distinct = distinct case".into()
+        "generated workspaces whose series lines use -pN / -p N / --strip=N / --strip N (N 0..3 with matching name prefixes), -R / --reverse, comments, blank lines, names spelled a//b, a/./b, ./a/b and absolute names whose root is the first stripped component, and whose modify entries have differing ---/+++ names in 4 of 8 cases (also under -R): old name absent (never existed, or deleted/renamed away by an earlier patch of the same run, so it is still on disk while the run resolves names) with the new name being the file, or old name being the file (possibly created earlier in the run) with the new name absent or another existing file. Each workspace is pushed (--backup always) sequentially, with 2..16 threads, and split into two invocations. Oracle: tree == model T_n in all three modes (model: target = old name if it currently exists in the model state else new name, exactly N components stripped, direction per -R), the three runs agree on tree and applied-patches, and .pc/<patch>/<path> entries name the resolved path. non-trivial = strip != 1, or -R, or differing names whose resolution depends on an earlier patch of the same run; distinct = distinct case".into()
     }
     fn assumptions(&self) -> Vec<String> {
         vec!["-pN with N >= path depth is covered only by C11's no-crash oracle".into(), "differing names are combined with -R too: the statement makes the choice depend on the old name only, whatever the direction".into()]
@@ -159,7 +159,7 @@ impl Prop for C17 {
         "C17"
     }
     fn rule(&self) -> String {
-        "a generated, cleanly applying workspace is put into the state 'm patches applied' (tree = model T_m) and then made inconsistent in one way: .pc/applied-patches with one entry changed / two entries swapped / longer than the series (extra names, or the series truncated) ; a goal naming an unknown patch or an already applied one; a patch file of the requested range missing or unparseable (truncated hunk, bad hunk header, bad line in hunk, GIT binary patch, no file name) at any position with all earlier patches applying cleanly; threads 1..16, all verbosities, both loaders. Oracle: exit status exactly 1, something on stderr, no crash, and the complete snapshot (bytes, modes, inodes, pinned mtimes, no new entries) of the working directory unchanged. non-trivial = the inconsistency is not at position 0 (something would have been applied before it) or there is prior applied state; distinct = distinct case".into()
+        "a generated, cleanly applying workspace is put into the state 'm patches applied' (tree = model T_m) and then made inconsistent in one way: .pc/applied-patches with one entry changed / made unreadable (an unknown option behind it, bytes that are not UTF-8) / two entries swapped / longer than the series (extra names, or the series truncated) ; a goal naming an unknown patch or an already applied one; a patch file of the requested range missing, being a directory (also with --mmap) or unparseable (truncated hunk, bad hunk header, bad line in hunk, GIT binary patch, no file name) at any position with all earlier patches applying cleanly; threads 1..16, all verbosities, both loaders. Oracle: exit status exactly 1, something on stderr, no crash, and the complete snapshot (bytes, modes, inodes, pinned mtimes, no new entries) of the working directory unchanged. non-trivial = the inconsistency is not at position 0 (something would have been applied before it) or there is prior applied state; distinct = distinct case".into()
     }
     fn assumptions(&self) -> Vec<String> {
         vec!["blank lines and comments in applied-patches are accepted by the tool and are not an inconsistency".into()]
